@@ -1322,3 +1322,343 @@ Proof.
       destruct (add_defaults_decides c st2 st pre a post Hnd Hsplit P2 E3) as [st_a [Hf [_ Hdec]]].
       destruct (Hdec G2) as [ch [Hch Hres]]. exists st_a, ch. repeat split; assumption.
 Qed.
+
+(** * 8. After the command-line phase every entry is labelled [CommandLine] *)
+
+Definition entry_cl (p : id * marg) : Prop := m_source (snd p) = Some SCmdLine.
+Definition all_cl (m : matcher) : Prop := Forall entry_cl (mt_args m).
+
+Lemma all_remove k l : Forall entry_cl l -> Forall entry_cl (fst (fm_remove k l)).
+Proof.
+  induction l as [|[k0 e] t IH]; intros F; [constructor|]. inversion F; subst. cbn [fm_remove].
+  destruct (beq k0 k); [exact H2|]. destruct (fm_remove k t) as [t' b]. cbn [fst] in *.
+  constructor; [exact H1|apply IH; exact H2].
+Qed.
+Lemma all_update k f l :
+  (forall e, m_source e = Some SCmdLine -> m_source (f e) = Some SCmdLine) ->
+  Forall entry_cl l -> Forall entry_cl (fm_update k f l).
+Proof.
+  intros Hf. induction l as [|[k0 e] t IH]; intros F; [constructor|]. inversion F; subst. cbn [fm_update].
+  destruct (beq k0 k); constructor; try assumption; [apply Hf; exact H1|apply IH; exact H2].
+Qed.
+Lemma all_entry_or_insert k v0 f l :
+  (forall e, m_source e = Some SCmdLine -> m_source (f e) = Some SCmdLine) ->
+  m_source (f v0) = Some SCmdLine ->
+  Forall entry_cl l -> Forall entry_cl (fm_entry_or_insert k v0 f l).
+Proof.
+  intros Hf H0 F. unfold fm_entry_or_insert. destruct (fm_contains k l).
+  - apply all_update; assumption.
+  - apply Forall_app. split; [exact F|]. constructor; [exact H0|constructor].
+Qed.
+Lemma fm_get_forall k l e : Forall entry_cl l -> fm_get k l = Some e -> m_source e = Some SCmdLine.
+Proof.
+  induction l as [|[k0 e0] t IH]; intros F; [discriminate|]. inversion F; subst. cbn [fm_get].
+  destruct (beq k0 k); [intros H; inversion H; subst; exact H1|apply IH; exact H2].
+Qed.
+
+Lemma new_group_cl e : m_source (new_val_group (set_source SCmdLine e)) = Some SCmdLine.
+Proof. unfold new_val_group, set_source. cbn. destruct (m_source e) as [[]|]; reflexivity. Qed.
+
+Lemma all_cl_mt_remove m i : all_cl m -> all_cl (fst (mt_remove m i)).
+Proof. unfold all_cl, mt_remove. intros F. pose proof (all_remove i _ F) as H. destruct (fm_remove i (mt_args m)). exact H. Qed.
+
+Lemma all_cl_remove_fold l : forall m, all_cl m -> all_cl (fold_left (fun m o => fst (mt_remove m o)) l m).
+Proof. induction l as [|o t IH]; intros m F; [exact F|]. cbn [fold_left]. apply IH. apply all_cl_mt_remove. exact F. Qed.
+
+Lemma all_cl_remove_overrides c a m : all_cl m -> all_cl (remove_overrides c a m).
+Proof. intros F. unfold remove_overrides. apply all_cl_remove_fold. apply all_cl_remove_fold. exact F. Qed.
+
+Lemma all_cl_start_arg m a : all_cl m -> all_cl (start_custom_arg_m m a SCmdLine).
+Proof.
+  intros F. unfold all_cl, start_custom_arg_m. cbn. apply all_entry_or_insert; [| |exact F]; intros; apply new_group_cl.
+Qed.
+Lemma all_cl_start_group m g : all_cl m -> all_cl (start_custom_group_m m g SCmdLine).
+Proof.
+  intros F. unfold all_cl, start_custom_group_m. cbn. apply all_entry_or_insert; [| |exact F]; intros; apply new_group_cl.
+Qed.
+Lemma all_cl_add_val m i v m' : add_val_to m i v = Some m' -> all_cl m -> all_cl m'.
+Proof.
+  intros H F. apply add_val_to_spec in H. destruct H as [e [gs [g [G [R [A _]]]]]].
+  unfold all_cl. rewrite A. apply all_update; [|exact F]. intros _ _. cbn. exact (fm_get_forall _ _ _ F G).
+Qed.
+Lemma all_cl_add_index m i ix m' : add_index_to m i ix = Some m' -> all_cl m -> all_cl m'.
+Proof.
+  intros H F. apply add_index_to_spec in H. destruct H as [A _]. unfold all_cl. rewrite A.
+  apply all_update; [|exact F]. intros e He. exact He.
+Qed.
+
+Lemma all_cl_start_custom_arg c a m m2 : start_custom_arg c a SCmdLine m = ROk m2 -> all_cl m -> all_cl m2.
+Proof.
+  intros H F. unfold start_custom_arg in H. cbn [src_explicit] in H.
+  assert (F0 : all_cl (start_custom_arg_m (remove_overrides c a m) a SCmdLine))
+    by (apply all_cl_start_arg, all_cl_remove_overrides; exact F).
+  revert H F0. generalize (start_custom_arg_m (remove_overrides c a m) a SCmdLine).
+  induction (groups_for_arg c (a_id a)) as [|g t IH]; intros m0 H F0.
+  - cbn in H. inversion H; subst. exact F0.
+  - cbn [fold_left] in H. cbn [rbind] in H.
+    destruct (add_val_to (start_custom_group_m m0 g SCmdLine) g (a_id a)) as [m1|] eqn:E.
+    + cbn [expect] in H. apply (IH m1 H). eapply all_cl_add_val; [exact E|]. apply all_cl_start_group. exact F0.
+    + cbn [expect] in H. exfalso. clear -H. induction t as [|g' t' IH']; [discriminate|apply IH'; exact H].
+Qed.
+
+Lemma all_cl_push_arg_values c a : forall raw st st',
+  push_arg_values c a raw st = ROk st' -> all_cl (mt st) -> all_cl (mt st').
+Proof.
+  induction raw as [|v t IH]; intros st st' H F.
+  - cbn in H. inversion H; subst. exact F.
+  - cbn [push_arg_values] in H.
+    destruct (a_vp a) as [vp|]; [|discriminate]. cbn [expect rbind] in H.
+    destruct (vp_parse vp v); [discriminate|].
+    destruct (add_val_to (mt (ps_bump st)) (a_id a) v) as [m1|] eqn:E1; [|discriminate]. cbn [expect rbind] in H.
+    destruct (add_index_to m1 (a_id a) (cur_idx (ps_bump st))) as [m2|] eqn:E2; [|discriminate]. cbn [expect rbind] in H.
+    apply (IH _ _ H). cbn. eapply all_cl_add_index; [exact E2|]. eapply all_cl_add_val; [exact E1|]. exact F.
+Qed.
+
+Lemma all_cl_store c a vs (st0 : ps) m1 st' pr :
+  all_cl m1 ->
+  (do m2 <- start_custom_arg c a SCmdLine m1;
+   do st' <- push_arg_values c a vs (st0 <| mt := m2 |>);
+   ROk (st', PRValuesDone)) = ROk (st', pr) -> all_cl (mt st').
+Proof.
+  intros F H.
+  destruct (start_custom_arg c a SCmdLine m1) as [m2| |] eqn:E1; [|discriminate|discriminate]. cbn [rbind] in H.
+  destruct (push_arg_values c a vs _) as [s2| |] eqn:E2; [|discriminate|discriminate]. cbn [rbind] in H.
+  inversion H; subst. eapply all_cl_push_arg_values; [exact E2|]. cbn. eapply all_cl_start_custom_arg; eassumption.
+Qed.
+
+(** a command-line [react] keeps the invariant *)
+Lemma all_cl_react_core c idn a raw ti st st' pr :
+  react_core c idn SCmdLine a raw ti st = ROk (st', pr) -> all_cl (mt st) -> all_cl (mt st').
+Proof.
+  intros H F. rewrite react_core_unfold in H. cbn [is_cmdline] in H.
+  destruct (verify_num_args _ _ _ _); [|discriminate|discriminate]. cbn [rbind] in H.
+  unfold react_tail in H. destruct (delimit c a _ _) as [vs|]; [|discriminate]. cbn [expect rbind] in H.
+  destruct (a_get_action a); try discriminate.
+  - match type of H with context [mt_remove (mt ?S) ?I] =>
+      assert (Hr : all_cl (fst (mt_remove (mt S) I))) by (apply all_cl_mt_remove; destruct (true && _ && _); exact F);
+      destruct (mt_remove (mt S) I) as [m1 removed] end.
+    cbn [fst] in Hr. destruct (removed && _); [discriminate|]. eapply all_cl_store; eassumption.
+  - eapply all_cl_store; [|exact H]. destruct (is_cmdline SCmdLine && _); exact F.
+  - match type of H with context [mt_remove (mt ?S) ?I] =>
+      assert (Hr : all_cl (fst (mt_remove (mt S) I))) by (apply all_cl_mt_remove; exact F);
+      destruct (mt_remove (mt S) I) as [m1 removed] end.
+    cbn [fst] in Hr. destruct (removed && _); [discriminate|]. eapply all_cl_store; eassumption.
+  - match type of H with context [mt_remove (mt ?S) ?I] =>
+      assert (Hr : all_cl (fst (mt_remove (mt S) I))) by (apply all_cl_mt_remove; exact F);
+      destruct (mt_remove (mt S) I) as [m1 removed] end.
+    cbn [fst] in Hr. destruct (removed && _); [discriminate|]. eapply all_cl_store; eassumption.
+  - match type of H with context [mt_remove (mt ?S) ?I] =>
+      assert (Hr : all_cl (fst (mt_remove (mt S) I))) by (apply all_cl_mt_remove; exact F);
+      destruct (mt_remove (mt S) I) as [m1 removed] end.
+    cbn [fst] in Hr. eapply all_cl_store; eassumption.
+Qed.
+
+Lemma all_cl_resolve_pending c st st1 : resolve_pending c st = ROk st1 -> all_cl (mt st) -> all_cl (mt st1).
+Proof.
+  unfold resolve_pending. destruct (mt_pending (mt st)) as [p|]; [|intros H F; inversion H; subst; exact F].
+  destruct (find_arg c (p_id p)) as [a|]; [|discriminate]. cbn [expect rbind].
+  destruct (react_core c _ SCmdLine a _ _ _) as [[s2 pr]| |] eqn:Er; [|discriminate|discriminate].
+  cbn [rbind fst]. intros H F. inversion H; subst. eapply all_cl_react_core; [exact Er|]. exact F.
+Qed.
+
+Lemma all_cl_react c idn a raw ti st x :
+  react c idn SCmdLine a raw ti st = ROk x -> all_cl (mt st) -> all_cl (mt (fst x)).
+Proof.
+  unfold react. destruct (resolve_pending c st) as [st1| |] eqn:E1; [|discriminate|discriminate]. cbn [rbind].
+  destruct x as [st' pr]. intros H F. eapply all_cl_react_core; [exact H|]. eapply all_cl_resolve_pending; eassumption.
+Qed.
+
+(** partial-correctness predicate: if the computation succeeds, [Q] holds of the result *)
+Definition okI {A} (r : res A) (Q : A -> Prop) : Prop := match r with ROk a => Q a | _ => True end.
+
+Lemma okI_bind {A B} (r : res A) (f : A -> res B) (Q1 : A -> Prop) (Q2 : B -> Prop) :
+  okI r Q1 -> (forall a, Q1 a -> okI (f a) Q2) -> okI (rbind r f) Q2.
+Proof. destruct r; cbn; auto. Qed.
+Lemma okI_expect {A B} site (o : option A) (f : A -> res B) Q :
+  (forall a, o = Some a -> okI (f a) Q) -> okI (rbind (expect site o) f) Q.
+Proof. destruct o; cbn; auto. Qed.
+Lemma okI_of_imp {A} (r : res A) (Q : A -> Prop) : (forall a, r = ROk a -> Q a) -> okI r Q.
+Proof. destruct r; cbn; auto. Qed.
+
+Section LoopInv.
+Variable c : cmd.
+
+Lemma okI_react idn a raw ti st :
+  all_cl (mt st) -> okI (react c idn SCmdLine a raw ti st) (fun x => all_cl (mt (fst x))).
+Proof. intros F. apply okI_of_imp. intros x H. eapply all_cl_react; eassumption. Qed.
+Lemma okI_resolve_pending st : all_cl (mt st) -> okI (resolve_pending c st) (fun s => all_cl (mt s)).
+Proof. intros F. apply okI_of_imp. intros x H. eapply all_cl_resolve_pending; eassumption. Qed.
+
+Lemma pending_values_push_args m i idn tr v m' : pending_values_push m i idn tr v = Some m' -> mt_args m' = mt_args m.
+Proof.
+  unfold pending_values_push. destruct (negb (beq _ i)); [discriminate|]. destruct (is_some idn && _); [discriminate|].
+  intros H; inversion H; subst. reflexivity.
+Qed.
+Lemma start_trailing_args m : mt_args (start_trailing m) = mt_args m.
+Proof. unfold start_trailing. destruct (mt_pending m); reflexivity. Qed.
+
+Lemma okI_parse_opt_value idn att a has_eq st :
+  all_cl (mt st) -> okI (parse_opt_value c idn att a has_eq st) (fun x => all_cl (mt (fst x))).
+Proof.
+  intros F. unfold parse_opt_value. destruct (a_req_eq a && negb has_eq).
+  - apply okI_expect. intros r _. destruct (vmin r =? 0); [|exact F].
+    eapply okI_bind; [apply okI_react; exact F|]. intros x Hx. exact Hx.
+  - destruct att as [v|].
+    + eapply okI_bind; [apply okI_react; exact F|]. intros x Hx. exact Hx.
+    + eapply okI_bind; [apply okI_resolve_pending; exact F|]. intros st1 F1.
+      apply okI_expect. intros m Hm. cbn. unfold all_cl. rewrite (pending_values_push_args _ _ _ _ _ _ Hm). exact F1.
+Qed.
+
+Lemma okI_parse_long_arg flag ok v pst pc vaf st :
+  all_cl (mt st) -> okI (parse_long_arg c flag ok v pst pc vaf st) (fun x => all_cl (mt (fst (fst x)))).
+Proof.
+  intros F. unfold parse_long_arg.
+  eapply okI_bind with (Q1 := fun _ => True); [destruct (state_arg c pst); exact I|]. intros sa _.
+  destruct (match sa with Some a => a_hyphen a | None => false end); [exact F|].
+  destruct (negb ok); [exact F|]. destruct (is_nil flag && negb (is_some v)); [exact I|].
+  match goal with |- okI (match ?X with _ => _ end) _ => destruct X as [a|] end.
+  - destruct (a_takes_value a).
+    + eapply okI_bind; [apply okI_parse_opt_value; exact F|]. intros x Hx. exact Hx.
+    + destruct v; [exact F|]. eapply okI_bind; [apply okI_react; exact F|]. intros x Hx. exact Hx.
+  - destruct (possible_long_flag_subcommand c flag); [exact F|].
+    match goal with |- okI (if ?X then _ else _) _ => destruct X end; exact F.
+Qed.
+
+Lemma okI_short_loop : forall fuel r ret vaf st,
+  all_cl (mt st) -> okI (short_loop c fuel r ret vaf st) (fun x => all_cl (mt (fst (fst x)))).
+Proof.
+  induction fuel as [|f IH]; intros r ret vaf st F; [exact I|]. cbn [short_loop].
+  destruct (sf_next r) as [[[ch|rest] r']|]; [| exact F | exact F].
+  destruct (get_short c ch) as [a|].
+  - destruct (negb (a_takes_value a)).
+    + eapply okI_bind; [apply okI_react; exact F|]. intros x Hx. apply IH. exact Hx.
+    + match goal with |- okI (let '(_, _) := ?X in _) _ => destruct X as [val has_eq] end.
+      eapply okI_bind; [apply okI_parse_opt_value; exact F|]. intros x Hx.
+      destruct (snd x); try exact Hx. apply IH. exact Hx.
+  - destruct (find_short_subcmd c ch); [|exact F].
+    eapply okI_bind; [apply okI_resolve_pending; exact F|]. intros st1 F1. exact F1.
+Qed.
+
+Lemma okI_parse_short_arg r pst pc vaf st :
+  all_cl (mt st) -> okI (parse_short_arg c r pst pc vaf st) (fun x => all_cl (mt (fst (fst x)))).
+Proof.
+  intros F. unfold parse_short_arg.
+  eapply okI_bind with (Q1 := fun _ => True); [destruct (state_arg c pst); exact I|]. intros sa _.
+  match goal with |- okI (if ?X then _ else _) _ => destruct X end; [exact F|].
+  match goal with |- okI (if ?X then _ else _) _ => destruct X end; [exact F|].
+  match goal with |- okI (if ?X then _ else _) _ => destruct X end; [exact F|].
+  apply okI_expect. intros r0 _. apply okI_short_loop. exact F.
+Qed.
+End LoopInv.
+
+Section LoopInv2.
+Variable c : cmd.
+
+Definition lr_state (lr : loop_res) : ps :=
+  match lr with LDone s | LSub _ _ _ s _ | LExternal _ _ s | LHelpSub _ s => s end.
+Definition LR (lr : loop_res) : Prop := all_cl (mt (lr_state lr)).
+Definition P1 (p1 : option (res loop_res) * lstate * ps) : Prop :=
+  let '(early, _, st') := p1 in
+  match early with Some r => okI r LR | None => all_cl (mt st') end.
+
+Lemma okI_rpi {B} st (f : ps -> res B) Q :
+  (forall s, okI (f s) Q) -> okI (rbind (resolve_pending_ignore c st) f) Q.
+Proof. intros H. destruct (resolve_pending_ignore c st); cbn; auto. Qed.
+
+Ltac leaf IH Hx :=
+  cbn [okI P1 LR lr_state];
+  first [ exact I | exact Hx | apply IH; exact Hx
+        | apply okI_rpi; intros; exact I ].
+
+Lemma okI_parse_loop : forall toks ls st,
+  all_cl (mt st) -> okI (parse_loop c toks ls st) LR.
+Proof.
+  induction toks as [|tok rest IH]; intros ls st F; [exact F|].
+  cbn [parse_loop].
+  eapply okI_bind with (Q1 := P1).
+  - destruct (l_trailing ls); [exact F|].
+    match goal with |- okI (match ?X with _ => _ end) _ => destruct X as [sc|] end.
+    + destruct (beq sc s_help && _); exact F.
+    + destruct (is_escape tok).
+      * eapply okI_bind with (Q1 := fun _ => True); [destruct (state_arg c (l_pst ls)); exact I|]. intros sa _.
+        destruct (match sa with Some a => a_hyphen a | None => false end); [exact F|].
+        cbn [okI P1]. apply IH. cbn. unfold all_cl. rewrite start_trailing_args. exact F.
+      * destruct (to_long tok) as [[[f ok] v]|].
+        -- eapply okI_bind; [apply okI_parse_long_arg; exact F|].
+           intros [[st0 pr] vaf0] Hx. cbn [fst snd] in Hx |- *.
+           destruct pr; leaf IH Hx.
+        -- destruct (to_short tok) as [r|]; [|exact F].
+           eapply okI_bind; [apply okI_parse_short_arg; exact F|].
+           intros [[st0 pr] vaf0] Hx. cbn [fst snd] in Hx |- *.
+           destruct pr; try (leaf IH Hx).
+           destruct (fs_at st0); [apply okI_expect; intros d _|]; exact Hx.
+  - intros [[early ls'] st'] HP. destruct early as [r|]; [exact HP|]. cbn [P1] in HP.
+    match goal with |- okI (match ?X with PSValuesDone => ?A | PSOpt i => @?O i | PSPos _ => _ end) _ =>
+      assert (HA : okI A LR); [| assert (HO : forall i, okI (O i) LR); [| destruct X; [exact HA | apply HO | exact HA]]] end.
+    + eapply okI_bind with (Q1 := fun _ => True).
+      { match goal with |- okI ?r _ => destruct r; exact I end. }
+      intros pc' _. destruct (get_pos c pc') as [a|].
+      * destruct (a_last a && negb (l_trailing ls')); [apply okI_rpi; intros; exact I|].
+        eapply okI_bind with (Q1 := fun s => all_cl (mt s)).
+        { match goal with |- okI (if ?B then _ else _) _ => destruct B end; [apply okI_resolve_pending; exact HP|exact HP]. }
+        intros st1 F1. destruct (check_terminator a tok); [apply IH; exact F1|].
+        apply okI_expect. intros m1 Hm1.
+        assert (F2 : all_cl (mt (st1 <| mt := m1 |>))).
+        { cbn. unfold all_cl. rewrite (pending_values_push_args _ _ _ _ _ _ Hm1). exact F1. }
+        destruct (negb (a_is_multiple a)); apply IH; exact F2.
+      * destruct (is_set s_allow_external c); [destruct (utf8_valid tok); [exact HP|apply okI_rpi; intros; exact I]|apply okI_rpi; intros; exact I].
+    + intros i. apply okI_expect. intros a _. destruct (check_terminator a tok); [apply IH; exact HP|].
+      apply okI_expect. intros m1 Hm1. apply okI_expect. intros more _. apply IH.
+      cbn. unfold all_cl. rewrite (pending_values_push_args _ _ _ _ _ _ Hm1). exact HP.
+Qed.
+
+End LoopInv2.
+
+
+(** every entry present after the command-line phase (token loop, subcommand dispatch, final
+    [resolve_pending]) is labelled [CommandLine] *)
+Theorem cmdline_phase_all_cl fuel' c toks st0 st_c st1 :
+  mt_args (mt st0) = [] ->
+  cmdline_phase fuel' c toks st0 = ROk st_c -> resolve_pending c st_c = ROk st1 ->
+  all_cl (mt st1).
+Proof.
+  intros H0 Hc Hr. apply (all_cl_resolve_pending c st_c st1 Hr).
+  destruct (cmdline_phase_args _ _ _ _ _ Hc) as [lr [st_l [Hl [Ha [_ Hst]]]]].
+  unfold all_cl. rewrite Ha.
+  assert (F0 : all_cl (mt st0)) by (unfold all_cl; rewrite H0; constructor).
+  pose proof (okI_parse_loop c toks (mkL PSValuesDone 1 false false) st0 F0) as Hok.
+  rewrite Hl in Hok. cbn [okI] in Hok. unfold LR in Hok.
+  destruct lr; cbn [lr_state] in Hok; subst; exact Hok.
+Qed.
+
+(** the reported source names the origin: for every argument of the level that has values after a
+    successful parse, the label says where they came from *)
+Theorem source_honest fuel' c toks st0 st :
+  ids_distinct c -> mt_args (mt st0) = [] ->
+  get_matches_with (S fuel') c toks st0 = ROk st ->
+  exists st_c st1,
+    cmdline_phase fuel' c toks st0 = ROk st_c /\ resolve_pending c st_c = ROk st1
+    /\ forall a e, In a (c_args c) -> fm_get (a_id a) (mt_args (mt st)) = Some e ->
+       match m_source e with
+       | Some SCmdLine => fm_get (a_id a) (mt_args (mt st1)) = Some e
+       | Some SEnv => fm_get (a_id a) (mt_args (mt st1)) = None
+                      /\ exists v vs, a_env a = Some v /\ delimit c a [v] None = Some vs /\ m_raw e = [vs]
+       | Some SDefault => fm_get (a_id a) (mt_args (mt st1)) = None /\ a_env a = None
+       | None => False
+       end.
+Proof.
+  intros Hid H0 H. destruct (precedence _ _ _ _ _ Hid H) as [st_c [st1 [st2 [Ec [E1 [_ [_ Hper]]]]]]].
+  exists st_c, st1. split; [exact Ec|]. split; [exact E1|].
+  pose proof (cmdline_phase_all_cl _ _ _ _ _ _ H0 Ec E1) as Hcl.
+  intros a e Hin Ge. destruct (in_split _ _ Hin) as [pre [post Hsplit]].
+  specialize (Hper pre a post Hsplit).
+  destruct (fm_get (a_id a) (mt_args (mt st1))) as [m|] eqn:G1.
+  - rewrite Hper in Ge. inversion Ge; subst m. rewrite (fm_get_forall _ _ _ Hcl G1). reflexivity.
+  - destruct (a_env a) as [v|] eqn:Ee.
+    + destruct Hper as [vs [e' [Hd [_ [Ge' [Se Re]]]]]]. rewrite Ge' in Ge. inversion Ge; subst e'.
+      rewrite Se. split; [reflexivity|]. exists v, vs. repeat split; assumption.
+    + destruct Hper as [st_a [[raw|] [_ [_ Hres]]]].
+      * destruct Hres as [vs [e' [_ [_ [Ge' [Se _]]]]]]. rewrite Ge' in Ge. inversion Ge; subst e'.
+        rewrite Se. split; reflexivity.
+      * rewrite Hres in Ge. discriminate.
+Qed.
